@@ -19,7 +19,6 @@
 #include <setjmp.h>
 #include <signal.h>
 
-#define VERIF_NT_EXPR nt.nontrivial()
 #undef new      // CppUTest's headers define new as new(__FILE__, __LINE__); the operators are called by name here
 
 using verif::Reader;
